@@ -175,8 +175,8 @@ func parseRS(f []string) (rsCase, bool) {
 			c.evs = append(c.evs, rsEvent{kind: 'K'})
 		case len(a) == 2 && a[0] == "P":
 			cfg, ok := parseRSCfg(a[1])
-			if !ok {
-				return c, false
+			if !ok || cfg.caddyfile {
+				return c, false // only JSON is pushed
 			}
 			c.evs = append(c.evs, rsEvent{kind: 'P', cfg: cfg})
 		case len(a) == 3 && a[0] == "S" && (a[1] == "r" || a[1] == "-"):
